@@ -14,15 +14,28 @@ PROP = dict(
     level_note="Trusted: Coq kernel, extraction, OCaml driver, Go harness.  Modelled not verified: packets.Packets (the "
                "Retained map, an association list), Go map iteration over child particles (order irrelevant: multiset "
                "comparison).  The retained PUBLISH packets actually written after SUBACK (publishRetainedToClient, "
-               "subscription options, retain handling) belong to the broker-level checks (C04/C05), not to this one.",
-    engines=[dict(hx="topics_ret", model="topics")],
-    theorems=["C02_refines", "C02_exactly", "C02_once"],
-    model_files="coq/Topics/Trie.v (model), coq/Topics/Match.v + IndexSpec.v (specification)",
+               "subscription options, retain handling) belong to the broker-level checks (C04/C05); this check covers which "
+               "of the matching retained messages reach the subscriber when some are not deliverable (ACL read denial, full "
+               "in-flight window, packet ids exhausted) — C02_delivered_every_order and engine topics_retsub; retained "
+               "messages held back by the client's Receive Maximum (send quota 0) are not exercised.",
+    engines=[dict(hx="topics_ret", model="topics"), dict(hx="topics_retsub")],
+    theorems=["C02_refines", "C02_exactly", "C02_once", "C02_delivered_every_order"],
+    model_files="coq/Topics/Trie.v (model), coq/Topics/Match.v + IndexSpec.v (specification), coq/Topics/RetSub.v "
+                "(delivery loop of publishRetainedToClient + its specification)",
     rule="exhaustive: every single retained topic of <= 3 levels (thorough 4) over {a,b,\"\",$x,$SYS}, every set of 2 and 3 "
          "retained topics of <= 2 levels (thorough: pairs of <= 3 levels) x every filter of <= 3 (4) levels over "
          "{a,b,\"\",+,#,$x,$SYS} plus ill-formed filters (correspondence only); random histories of 1-10 retain / clear / "
          "Retained.Delete operations on topics that are prefixes / extensions of each other, queried with filters "
-         "generalised from the topics.  One case = one history + all its filters; non-trivial = some filter returned something",
+         "generalised from the topics.  One case = one history + all its filters; non-trivial = some filter returned something.  "
+         "ADDED (broker level, engine topics_retsub, 700 / 12000 cases): the real broker over in-memory connections; 3-11 "
+         "retained publishes of QoS 0/1/2 (one third of the cases all QoS 0) on topics over {a,b,c} (<= 2 levels), $x/a, "
+         "a/b/c, b/; a v4 or v5 subscriber sends SUBSCRIBE (QoS 0/1/2) with one of 11 filters while a FAULT dimension is "
+         "active: read access denied for 0-2 single topics by the ACL hook (mostly topics the filter selects), "
+         "Capabilities.MaximumInflight 1-3 or a packet id space of 2-4 ids, and 0..capacity unacknowledged QoS 1 "
+         "publishes already in flight to the subscriber.  The PUBLISH packets after SUBACK must satisfy RetSub.retsub_okb: "
+         "each matching, readable retained message at most once at QoS min(message, subscription, 2) with the retain flag, "
+         "every readable QoS 0 one present, exactly min(readable QoS>0 ones, free window slots) QoS>0 ones — for every scan "
+         "order (the broker's map iteration order is unknown to the checker).  Classes: plain / acl / window / acl+window",
     exhaustive=False,
     modelled="topics.go: TopicsIndex.RetainMessage, Messages, scanMessages, set, trim, isolateParticle; packets.Packets",
     assumptions=["operations on the index are applied one at a time (concurrency is C31)",
